@@ -19,6 +19,7 @@ from bfsa.terms import C, NONE, Term, cval, is_const, mk, show, subterms
 
 from rules.bf3 import BF3, _self_attr, canon
 from rules import c06
+from rules import stackrt
 
 LEVEL = "other"
 
@@ -271,15 +272,143 @@ def framing_rules(prog, chk, pid):
     chk.require(ok, P("framing"), fi.qualname, "{U8 len(block), block}* over tlv blocks + additional blocks, then 00; actual_len = len(blob)", where, "length-prefixed blocks closed by a single 00, caller's blocks appended unchanged, declared length = blob length", why)
 
 
+def _decode_block(b):
+    """decode one TLV block (list of byte terms; control bytes must be constants) into operations"""
+    ops = []
+    pos, n = 0, len(b)
+    cv = lambda i: cval(b[i]) if i < n and is_const(b[i]) else None
+    while pos < n:
+        op, kh, kl = cv(pos), cv(pos + 1), cv(pos + 2)
+        if op not in (1, 2) or kh is None or kl is None:
+            return None
+        key = (kh << 8) | kl
+        pos += 3
+        if op == 2:
+            ops.append(("delkey", key))
+            continue
+        first = True
+        while True:
+            if pos >= n:
+                break  # a block may end without the closing FF
+            v = cv(pos)
+            if v is None:
+                return None
+            if v == 0xFF:
+                pos += 1
+                break
+            ln = cv(pos + 1)
+            if ln is None:
+                return None
+            if ln == 0xFF:
+                ops.append(("delval", key, v))
+                pos += 2
+            else:
+                if pos + 2 + ln > n:
+                    return None
+                ops.append(("set", key, v, tuple(x.uid for x in b[pos + 2:pos + 2 + ln])))
+                pos += 2 + ln
+            first = False
+        if first:
+            return None  # a value group without any entry
+    return ops
+
+
+def tlv_scenarios(prog, chk, pid, tier):
+    """conf_dict_to_tlv / set_config on enumerated dictionaries (keys, value ids and content LENGTHS enumerated, in particular sizes
+    landing on, below and above the 117-byte limit; contents symbolic), interpreted in concrete-control mode and decoded by an
+    independent decoder of the block format"""
+    from bfsa.exprs import sbytes
+    from rules import stackrt as R
+
+    P = lambda s_: "%s.%s" % (pid, s_)
+    stk = R.Stack(prog)
+    fi = prog.func(BF3 + ".conf_dict_to_tlv")
+    where = "%s:%d" % (fi.file, fi.lineno)
+    LIMIT = 117
+    dicts = []
+    # (key, value, content length | None for a delete)   value None = delete key
+    dicts.append([((0x0101, 3), 5), ((0x0101, 4), 7), ((0x0202, 0x82), 8), ((0x0620, 1), 2)])
+    dicts.append([((0x0101, None), None), ((0x0300, 5), None), ((0x0300, 6), None), ((0x0101 + 1, 3), 10)])
+    dicts.append([])
+    for first in (109, 110, 111, 112, 113):  # entry size 3 + 2 + n + 1: 115..119 around the limit
+        dicts.append([((0x0101, 1), first), ((0x0101, 2), 4)])
+        dicts.append([((0x0100, None), None), ((0x0101, 1), first - 3), ((0x0101, 2), 1)])
+        dicts.append([((0x0101, 1), 20), ((0x0102, 1), first - 26), ((0x0103, 9), 3)])
+    for a in (100, 104, 105, 106):
+        dicts.append([((0x0200, 1), a), ((0x0200, 2), 3), ((0x0200, 3), 2), ((0x0201, 1), 1)])
+    dicts.append([((0x0101, 1), 200), ((0x0101, 2), 5)])  # an oversize entry in first position
+    dicts.append([((0x0101, 1), 5), ((0x0101, 2), 254), ((0x0101, 3), 5)])  # oversize in the middle
+    dicts.append([((0x0400 + i, 1), 30) for i in range(9)])
+    dicts.append([((0x0500, i), 11) for i in range(1, 30)])
+    if tier == "thorough":
+        for a in range(95, 118):
+            for b_ in (0, 1, 7):
+                dicts.append([((0x0010, None), None), ((0x0101, 1), a), ((0x0101, 2), b_), ((0x0102, 1), 3)])
+    bad = None
+    for dspec in dicts:
+        args = {}
+        items = []
+        want_del, want_set = [], []
+        fits = True
+        for i, ((key, val), ln) in enumerate(dspec):
+            if val is None:
+                items.append("(%d, None): None" % key)
+                want_del.append(("delkey", key, -1))
+            elif ln is None:
+                items.append("(%d, %d): None" % (key, val))
+                want_del.append(("delval", key, val))
+            else:
+                content = R.syms("c%d_" % i, ln)
+                args["c%d" % i] = sbytes(content)
+                items.append("(%d, %d): c%d" % (key, val, i))
+                want_set.append(("set", key, val, tuple(x.uid for x in content)))
+                if 3 + 2 + ln + 1 > LIMIT:
+                    fits = False
+        want = [(t[0], t[1]) if t[0] == "delkey" else t for t in sorted(want_del, key=lambda t: (t[1], t[2]))] + sorted(want_set, key=lambda t: (t[1], t[2]))
+        src = "def drv(%s):\n    return conf_dict_to_tlv({%s})\n" % (", ".join(sorted(args)), ", ".join(items))
+        ex, res = stk.run(BF3, src, args)
+        label = "%d entries %s" % (len(dspec), [(hex(k), v, l) for (k, v), l in dspec][:4])
+        if res.dead or res.ret is None:
+            bad = bad or (label, "raises")
+            continue
+        blocks = ex.iter_items(res.ret, res.state)
+        if blocks is None:
+            bad = bad or (label, "result is not a list of known blocks")
+            continue
+        ops = []
+        for bi, blk in enumerate(blocks):
+            bb = R.flat(ex, res, blk)
+            if bb is None:
+                bad = bad or (label, "block %d has unknown bytes" % bi)
+                break
+            if len(bb) == 0:
+                bad = bad or (label, "block %d is empty (block lengths %s)" % (bi, [len(R.flat(ex, res, x) or []) for x in blocks]))
+            if fits and len(bb) > LIMIT:
+                bad = bad or (label, "block %d has %d bytes, limit is %d" % (bi, len(bb), LIMIT))
+            d = _decode_block(bb)
+            if d is None:
+                bad = bad or (label, "block %d does not decode" % bi)
+                break
+            ops.extend(d)
+        else:
+            if ops != want:
+                bad = bad or (label, "decodes to %d operations %s..., the dictionary has %d %s..." % (len(ops), [o[:3] for o in ops[:4]], len(want), [o[:3] for o in want[:4]]))
+    chk.require(bad is None, P("tlv-scenarios"), fi.qualname, "%d dictionaries (sizes around the 117-byte limit, oversize entries, deletions), symbolic contents" % len(dicts), where,
+                "for every enumerated dictionary no block is empty, every block is at most 117 bytes when each entry fits, and the blocks decode (independent decoder) to exactly the deletions in sorted order followed by the assignments in sorted order, each once with its exact content",
+                "%s: %s" % bad if bad else "")
+    chk.info["tlv_scenarios"] = len(dicts)
+
+
 def run(prog, chk, tier):
     chk.explanation = ("conf_dict_to_list's result is decomposed into its two filtered, sorted groups (complementary predicates in relational normal form); the three TLV part "
                        "constructors are interpreted in the byte-layout domain; the split test's operand is the concatenation of current block, pending postface and the whole "
                        "entry, compared strictly with 117; an emptiness abstract interpretation (E/N/U per byte string, closed/last summary of the block list, disjunctive loop "
                        "fixpoint) proves that no closed block is empty and an empty last block is removed; set_config frames `len || block`* 00 with declared length and the "
-                       "documented tags. Decode-equality for arbitrary dictionaries is not decided.")
+                       "documented tags. For enumerated dictionaries with symbolic contents the blocks are decoded by an independent decoder and compared with the dictionary's operations.")
     ordering_rules(prog, chk, "C10")
     part_rules(prog, chk, "C10")
     emptiness_rule(prog, chk, "C10")
     framing_rules(prog, chk, "C10")
     c06.config_component(prog, chk, "C10")
+    stackrt.guarded(chk, "C10.tlv-scenarios", tlv_scenarios, prog, chk, "C10", tier)
     chk.assume("keys 0..0xFFFF, value ids 0..0xFE, contents up to 254 bytes as in the property's quantifier")
